@@ -26,6 +26,9 @@ struct choose_best_simd_vector {
     using T = remove_cv_ref_t<TT>;
     using type = typename std::conditional< std::is_same<T,float>::value                    ||
                                             std::is_same<T,double>::value                   ||
+#ifdef FASTOR_VERIF
+                                            internal::verif_vectorisable<T>::value          ||
+#endif
                                             std::is_same<T,std::complex<float>>::value      ||
                                             std::is_same<T,std::complex<double>>::value     ||
                                             std::is_same<T,int32_t>::value                  ||
@@ -63,6 +66,9 @@ struct memory_alignment_value {
 #else
     static constexpr size_t value = (std::is_same<T,float>::value                   ||
                                     std::is_same<T,double>::value                   ||
+#ifdef FASTOR_VERIF
+                                    internal::verif_vectorisable<T>::value          ||
+#endif
                                     std::is_same<T,std::complex<float>>::value      ||
                                     std::is_same<T,std::complex<double>>::value     ||
                                     std::is_same<T,int32_t>::value                  ||
